@@ -34,6 +34,10 @@ def reconcile_taxonomy_and_markers(
         for parent in parent_list:
             if parent is None:
                 parent_grp = 'None'
+                if len(taxonomy_tree.children(None, None)) == 1:
+                    # the root only has one child; it does not matter
+                    # if there are markers for it or not
+                    continue
             else:
                 parent_grp = f'{parent[0]}/{parent[1]}'
                 if len(taxonomy_tree.children(parent[0], parent[1])) == 1:
